@@ -7,17 +7,17 @@
 set -u
 prop=$1; x=$2; demo=$3; pkg=$4; rx=$5; shift 5
 checks=${*:-$prop}
-wt=/tmp/seed/$prop; out=$wt/_out/$x
+wt=${SEEDDIR:-/tmp/seed}/$prop; out=$wt/_out/$x
 export GOFLAGS=-mod=mod GOPROXY=off
 cd $wt || exit 2
 git checkout -q -- . ; git clean -fdq -e _out
 git apply $out/patch.diff || { echo "patch does not apply"; exit 2; }
 go build ./... 2>&1 | tail -3
-if go test -vet=off -count=1 ./... > /tmp/seed/$prop.$x.suite 2>&1; then a=pass; else a=FAIL; fi
+if go test -vet=off -count=1 ./... > ${SEEDDIR:-/tmp/seed}/$prop.$x.suite 2>&1; then a=pass; else a=FAIL; fi
 cp $out/$demo $pkg/zz_seed_demo_test.go
-if go test -vet=off -count=1 -run "$rx" ./$pkg > /tmp/seed/$prop.$x.with 2>&1; then b=pass; else b=fail; fi
+if go test -vet=off -count=1 -run "$rx" ./$pkg > ${SEEDDIR:-/tmp/seed}/$prop.$x.with 2>&1; then b=pass; else b=fail; fi
 git apply -R $out/patch.diff
-if go test -vet=off -count=1 -run "$rx" ./$pkg > /tmp/seed/$prop.$x.without 2>&1; then c=pass; else c=FAIL; fi
+if go test -vet=off -count=1 -run "$rx" ./$pkg > ${SEEDDIR:-/tmp/seed}/$prop.$x.without 2>&1; then c=pass; else c=FAIL; fi
 rm -f $pkg/zz_seed_demo_test.go
 git checkout -q -- . ; git clean -fdq -e _out
 echo "(a) suite with change: $a   (b) demo with change: $b   (c) demo without change: $c"
@@ -35,7 +35,7 @@ for p in $checks; do
   results="$results\"$p\": \"$(echo $r | sed 's/"/\\"/g')\", "
 done
 git -C /repo checkout -q -- . ; git -C /repo clean -fdq
-d=/verif/seeded/$prop-$x; mkdir -p $d
+d=/verif/seeded/$prop-${TAG:-}$x; mkdir -p $d
 cp $out/patch.diff $d/; cp $out/$demo $d/; cp $out/README.md $d/README.md 2>/dev/null
 cat > $d/meta.json <<EOM
 {
